@@ -985,6 +985,18 @@ func (r *minRun) primeMethod() {
 	for i := range x {
 		x[i] = in.initX[i] + 0.5
 	}
+	// exported tuning fields may be changed between two runs of one method
+	// value: the first run uses the defaults, the run under test the knobs
+	if m, ok := r.method.(*optimize.LBFGS); ok {
+		store := m.Store
+		m.Store = 0
+		defer func() { m.Store = store }()
+	}
+	if m, ok := r.method.(*optimize.NelderMead); ok {
+		size := m.SimplexSize
+		m.SimplexSize = 0
+		defer func() { m.SimplexSize = size }()
+	}
 	optimize.Minimize(p, x, &set, r.method)
 }
 
